@@ -88,9 +88,11 @@ PROPS_PART = {
             'name_builder.finish': [('names', 'bnd_name_from_str_matches_reference')],
         },
         native=[dict(bin='bnd_name_text', when='quick',
-                     bound='923 names: all of <= 2 labels over 26 labels (case pairs, octets next to the letter ranges, ".", "\\", " ", "*", digits, escape look-alikes, 0x00 0x7f 0x80 0xff, '
-                           '63-octet labels), all of 3 labels over 6 labels, 255-octet names (4 labels / 127 labels) and case variants; one by one and in all 851929 ordered pairs; '
-                           '2053 texts at the limits (63/64-octet labels, 255/256-octet names, relative / empty-label forms, \\DDD for all 1000 three-digit values)',
+                     bound='982 names: all of <= 2 labels over 26 labels (case pairs, octets next to the letter ranges, ".", "\\", " ", "*", digits, escape look-alikes, 0x00 0x7f 0x80 0xff, '
+                           '63-octet labels), all of 3 labels over 6 labels, 255-octet names (4 labels / 127 labels) and case variants; + 40 names whose labels contain binary octets equal to plausible length octets, next to the names whose wire form '
+                           'is a raw-octet suffix of theirs (a\\007example.test. / example.test., \\004test. / test., x\\001a. / a., \\001a.b. / a.b., ...; case variants); + 19 names of 66..255 octets made of octets that are escaped in text '
+                           '(0x00, 0xff, ".", "\\", 0x07, mixed; text forms up to 1004 characters, incl. exactly 255/256 characters); one by one and in all 964324 ordered pairs; '
+                           '2105 texts at the limits (63/64-octet labels, 255/256-octet names, relative / empty-label forms, \\DDD for all 1000 three-digit values, the label/name/label-count limits written with \\DDD and \\X escapes, up to 1008 characters)',
                      what='public Name API on the native build vs a reference model over label lists: Display->FromStr gives the identical wire form and the text denotes the labels '
                           '(RFC 1035 5.1); text acceptance == reference; == iff labels equal ignoring ASCII case; equal names hash alike; cmp == RFC 4034 6.1 canonical order, '
                           'Equal iff ==; eq_or_subdomain_of == label suffix; labels/len/index/is_root/is_wildcard, superdomain(k), wire_repr_to/from, make_ascii_lowercase; no panic')],
